@@ -19,7 +19,7 @@ RULE = ('states = group elements reached by BFS over the Cayley graph using the 
 ASSUMPTIONS = ['unit quaternions only (the statement is about unit quaternions)',
                'tolerance 1e-12 absolute (relative to |v| for vector rotation); observed <= 3e-15',
                'reference model mc/ref/quat.py is the textbook formula; any disagreement is reported as a violation']
-REQUIRED_CLASSES = ['default-objects', 'quaternion-objects-as-arguments', 'derived-scalar-last', 'multiplication-matrices', 'normalised-in-place', 'cayley:closed', 'pairs:group', 'pairs:coset', 'unary:edge', 'rotate', 'int-operands', 'array-history']
+REQUIRED_CLASSES = ['default-objects', 'quaternion-objects-as-arguments', 'derived-scalar-last', 'multiplication-matrices', 'normalised-in-place', 'scalar-last-array-and-same-raw-numbers', 'cayley:closed', 'pairs:group', 'pairs:coset', 'unary:edge', 'rotate', 'int-operands', 'array-history']
 TOL = 1e-12
 
 
@@ -535,6 +535,30 @@ def job_objects(ctx, k):
                         ctx.fail(f'{nm} raises after normalize()', key, repr(ex)[:120], 'the unit quaternion'); continue
                     ctx.close(out, exp, TOL, f'after Quaternion(non-unit, versor=False).normalize(): {nm} reads the unit quaternion', key)
         ctx.cls('normalised-in-place')
+    # (6) scalar-LAST storage is a storage permutation of the same Hamilton quaternion: the array class gives the same matrices / rotated vectors,
+    #     and two objects holding the SAME raw numbers in the two orders each answer for their own reading, in either creation order
+    rows = np.array(qs + [rq.qmul(qs[0], qs[1]), rq.qconj(qs[2])])
+    try:
+        QS = QuaternionArray(np.roll(rows, -1, axis=1).copy(), order='S'); QH = QuaternionArray(rows.copy())
+        ctx.close(np.asarray(QS.to_DCM()), np.array([rq.R(r_) for r_ in rows]), TOL, "QuaternionArray(order='S').to_DCM() = the matrices of the same quaternions stored scalar-first", f'k{k}')
+        ctx.close(np.asarray(QS.to_DCM()), np.asarray(QH.to_DCM()), TOL, "QuaternionArray(order='S').to_DCM() = QuaternionArray(scalar-first).to_DCM()", f'k{k}')
+        for nm_ in ('w', 'x', 'y', 'z'):
+            ctx.close(np.asarray(getattr(QS, nm_), float), np.asarray(getattr(QH, nm_), float), 1e-15, f"QuaternionArray(order='S').{nm_} = the scalar-first array's", f'k{k}')
+    except Exception as ex:
+        ctx.fail("QuaternionArray(order='S') raises", f'k{k}', repr(ex)[:120], 'matrices')
+    for qi, raw in enumerate(qs):
+        qH, qS_ = raw, np.roll(raw, 1)
+        for first in ('H', 'S'):
+            objs = {}
+            for o_ in (first, 'S' if first == 'H' else 'H'):
+                objs[o_] = Quaternion(raw.copy(), order=o_)
+                for o2, Qo in objs.items():
+                    qq = qH if o2 == 'H' else qS_
+                    key = f'raw=q#{qi} built first={first} asked={o2} k{k}'
+                    ctx.close(np.asarray(Qo.to_DCM()), rq.R(qq), TOL, "same raw numbers in the two storage orders: to_DCM answers for the object's own reading", key)
+                    ctx.close(np.asarray(Qo.rotate(v.copy())), rq.R(qq) @ v, TOL, "same raw numbers in the two storage orders: rotate answers for the object's own reading", key)
+                    ctx.close(np.asarray(DCM(q=np.array([Qo.w, Qo.x, Qo.y, Qo.z]))), rq.R(qq), TOL, 'same raw numbers in the two storage orders: DCM(q=(w, x, y, z))', key)
+    ctx.cls('scalar-last-array-and-same-raw-numbers')
     ctx.sample({'default_objects': ['Quaternion()', 'DCM()', 'QuaternionArray()'], 'derived': ['-q', '+q', 'copy', 'deepcopy']})
 
 
